@@ -92,3 +92,20 @@ Proof.
   - split; [vm_compute; reflexivity|]. split; [vm_compute; reflexivity|]. split; [vm_compute; reflexivity|].
     eexists. split; [vm_compute; reflexivity|]. vm_compute. split; reflexivity.
 Qed.
+
+Require Import GTokenise.
+(* ---- a tuple assignment: both targets carry the equation and get every edge; the second statement reads both ---- *)
+Example ex_tuple_assignment :
+  exists syms, parse_model_nocheck ("S,D = X, Y[-1]" ++ nl_s ++ "Q = S + D[-1]") = POk syms /\
+    equations_of syms = ["S[t],D[t] = X[t], Y[t-1]"; "S[t],D[t] = X[t], Y[t-1]"; "Q[t] = S[t] + D[t-1]"] /\
+    (forall q, tokenise "S[t],D[t] = X[t], Y[t-1]" = Some q -> nids (nlhs q) = ["S[t]"; "D[t]"] /\ nids (nrhs q) = ["X[t]"; "Y[t-1]"]) /\
+    match symbols_to_graph_M syms with
+    | Ret g => in_edges g "S[t]" = ["X[t]"; "Y[t-1]"] /\ in_edges g "D[t]" = ["X[t]"; "Y[t-1]"] /\ in_edges g "Q[t]" = ["S[t]"; "D[t-1]"] /\
+               map fst (gnodes g) = ["S[t]"; "D[t]"; "X[t]"; "Y[t-1]"; "Q[t]"; "D[t-1]"]
+    | Raise _ => False
+    end.
+Proof.
+  eexists. split; [vm_compute; reflexivity|]. split; [vm_compute; reflexivity|]. split.
+  - intros q H. vm_compute in H. inversion H; subst q. split; vm_compute; reflexivity.
+  - vm_compute. repeat split; reflexivity.
+Qed.
